@@ -616,6 +616,11 @@ def run(res):
         for ft in getattr(res, "build_failures", []) or [{"decl": "?", "msg": out[-800:]}]:
             broken.append("theorem %s (%s:%s) no longer checks: %s" % (ft.get("decl"), ft.get("file"), ft.get("line"), ft.get("msg")))
         vlib.lake_build(["vdriver"])
+        # obligations are still counted when some of them fail (the evidence names the ones that no longer check)
+        thms = vlib.theorems_in(vlib.LEAN / "AsmjitVerif/Props/C14.lean")
+        failed = {ft.get("decl") for ft in getattr(res, "build_failures", []) or []}
+        res.coverage["obligations"] = len(thms)
+        res.coverage["discharged"] = len([t for t in thms if t.split(".")[-1] not in failed]) if failed else 0
     if not vlib.driver_path().exists():
         res.violation("Lean driver does not build", {"log": out[-3000:]}, found_input=False, key="driver")
         return
